@@ -196,24 +196,24 @@ func load(kind string) (*loaded, error) {
 }
 
 type HarnessResult struct {
-	Spec        HarnessSpec
-	Sh          *Shared
-	Wall        float64
-	SolverTime  float64
-	Queries     int
-	Sat, Unsat  int
-	Unk         int
-	SolverErr   int
-	Funcs       map[string]int
-	Instrs      int
-	Cfg         map[string]int64
-	Validated   int
-	Mismatch    []string
-	MissingCov  []string
-	BadUnsup    []string
-	Incomplete  bool
-	Reproduced  []Violation
-	NotRepro    []Violation
+	Spec         HarnessSpec
+	Sh           *Shared
+	Wall         float64
+	SolverTime   float64
+	Queries      int
+	Sat, Unsat   int
+	Unk          int
+	SolverErr    int
+	Funcs        map[string]int
+	Instrs       int
+	Cfg          map[string]int64
+	Validated    int
+	Mismatch     []string
+	MissingCov   []string
+	BadUnsup     []string
+	Incomplete   bool
+	Reproduced   []Violation
+	NotRepro     []Violation
 	KnownPrinted map[string]bool
 }
 
